@@ -161,6 +161,35 @@ def cases(tier, seed):
         out.append({"cid": f"c15-{seed}-{k}", "lib": rng.choice(["ufoLib2", "defcon"]), "filter": spec,
                     "steps": steps, "again": spec["name"] == "PropagateAnchors"})
     out += _pipe_cases(random.Random(seed * 7919 + 150015), 8 if tier == "quick" else 100, f"c15-{seed}")
+    # component chains of depth 3-4 whose innermost composite has two or three components, the first of them placed with a
+    # transform that is NOT the identity (offset / flip / scale): flattening, decomposing and partial decomposing keep the shape
+    from ..absfont import MS, PS
+
+    rng3 = random.Random(seed * 7919 + 150016)
+    for k in range(15 if tier == "quick" else 200):
+        def sq(x, y, w, h):
+            return [[x * PS, y * PS, "line"], [(x + w) * PS, y * PS, "line"], [(x + w) * PS, (y + h) * PS, "line"], [x * PS, (y + h) * PS, "line"]]
+
+        def comp(b, m=None, d=(0, 0)):
+            return {"b": b, "m": list(m or [MS, 0, 0, MS]), "d": [d[0] * PS, d[1] * PS]}
+
+        trs = [[MS, 0, 0, MS], [-MS, 0, 0, MS], [MS // 2, 0, 0, MS // 2], [0, MS, -MS, 0], [MS, 0, 0, -MS]]
+        g = {"L1": {"cs": [sq(0, 0, 100, 60)], "comps": [], "anchors": [], "w": 300 * PS, "h": 0, "u": []},
+             "L2": {"cs": [sq(10, 10, 30, 80)], "comps": [], "anchors": [], "w": 200 * PS, "h": 0, "u": []},
+             "L3": {"cs": [sq(-20, 0, 40, 40)], "comps": [], "anchors": [], "w": 100 * PS, "h": 0, "u": []}}
+        inner = [comp("L1", trs[k % 5], (rng3.randint(10, 90), rng3.randint(0, 50))), comp("L2", trs[(k + 2) % 5], (rng3.randint(-40, 40), 120))]
+        if k % 3 == 0:
+            inner.append(comp("L3", None, (200, 0)))
+        g["Y"] = {"cs": [], "comps": inner, "anchors": [], "w": 400 * PS, "h": 0, "u": []}
+        g["Z"] = {"cs": [], "comps": [comp("Y", trs[(k + 1) % 5], (rng3.randint(0, 60), rng3.randint(0, 60)))] + ([comp("L3", None, (0, 300))] if k % 2 else []),
+                  "anchors": [], "w": 450 * PS, "h": 0, "u": []}
+        g["X"] = {"cs": [], "comps": [comp("Z", trs[(k + 3) % 5] if k % 4 == 0 else None, (rng3.randint(0, 30), 0))], "anchors": [], "w": 500 * PS, "h": 0, "u": [0x58]}
+        if k % 5 == 4:
+            g["W"] = {"cs": [], "comps": [comp("X", None, (5, 5)), comp("Y", None, (0, -200))], "anchors": [], "w": 500 * PS, "h": 0, "u": []}
+        kind = ["FlattenComponents", "FlattenComponents", "DecomposeComponents", "DecomposeTransformedComponents"][k % 4]
+        spec = {"name": kind, "include": {"kind": "all"} if k % 3 else {"kind": "list", "names": ["X", "Z"] + (["W"] if "W" in g else [])}}
+        out.append({"cid": f"c15-{seed}-fc{k}", "lib": rng3.choice(["ufoLib2", "defcon"]), "filter": spec,
+                    "steps": [{"glyphs": g, "info": {"capHeight": 700, "xHeight": 500}, "separate": k % 2 == 0}], "again": False})
     return out
 
 
